@@ -61,6 +61,12 @@ model/PutQuery.vos model/PutQuery.vok model/PutQuery.required_vos: model/PutQuer
 model/Check08.vo model/Check08.glob model/Check08.v.beautified model/Check08.required_vo: model/Check08.v model/Bytes.vo model/PutQuery.vo
 model/Check08.vio: model/Check08.v model/Bytes.vio model/PutQuery.vio
 model/Check08.vos model/Check08.vok model/Check08.required_vos: model/Check08.v model/Bytes.vos model/PutQuery.vos
+model/Inflight.vo model/Inflight.glob model/Inflight.v.beautified model/Inflight.required_vo: model/Inflight.v model/Bytes.vo
+model/Inflight.vio: model/Inflight.v model/Bytes.vio
+model/Inflight.vos model/Inflight.vok model/Inflight.required_vos: model/Inflight.v model/Bytes.vos
+model/Check09.vo model/Check09.glob model/Check09.v.beautified model/Check09.required_vo: model/Check09.v model/Bytes.vo model/Inflight.vo
+model/Check09.vio: model/Check09.v model/Bytes.vio model/Inflight.vio
+model/Check09.vos model/Check09.vok model/Check09.required_vos: model/Check09.v model/Bytes.vos model/Inflight.vos
 model/Check12.vo model/Check12.glob model/Check12.v.beautified model/Check12.required_vo: model/Check12.v gen/Params.vo model/Bytes.vo model/Crc32c.vo model/Id.vo model/Node.vo model/BSearch.vo model/Closest.vo model/RTable.vo model/Check11.vo
 model/Check12.vio: model/Check12.v gen/Params.vio model/Bytes.vio model/Crc32c.vio model/Id.vio model/Node.vio model/BSearch.vio model/Closest.vio model/RTable.vio model/Check11.vio
 model/Check12.vos model/Check12.vok model/Check12.required_vos: model/Check12.v gen/Params.vos model/Bytes.vos model/Crc32c.vos model/Id.vos model/Node.vos model/BSearch.vos model/Closest.vos model/RTable.vos model/Check11.vos
@@ -130,3 +136,9 @@ properties/C08.vos properties/C08.vok properties/C08.required_vos: properties/C0
 properties/C17.vo properties/C17.glob properties/C17.v.beautified properties/C17.required_vo: properties/C17.v model/Bytes.vo model/PutQuery.vo model/Check08.vo proofs/PutQueryProofs.vo
 properties/C17.vio: properties/C17.v model/Bytes.vio model/PutQuery.vio model/Check08.vio proofs/PutQueryProofs.vio
 properties/C17.vos properties/C17.vok properties/C17.required_vos: properties/C17.v model/Bytes.vos model/PutQuery.vos model/Check08.vos proofs/PutQueryProofs.vos
+proofs/InflightProofs.vo proofs/InflightProofs.glob proofs/InflightProofs.v.beautified proofs/InflightProofs.required_vo: proofs/InflightProofs.v model/Bytes.vo model/Inflight.vo
+proofs/InflightProofs.vio: proofs/InflightProofs.v model/Bytes.vio model/Inflight.vio
+proofs/InflightProofs.vos proofs/InflightProofs.vok proofs/InflightProofs.required_vos: proofs/InflightProofs.v model/Bytes.vos model/Inflight.vos
+properties/C09.vo properties/C09.glob properties/C09.v.beautified properties/C09.required_vo: properties/C09.v model/Bytes.vo model/Inflight.vo proofs/InflightProofs.vo
+properties/C09.vio: properties/C09.v model/Bytes.vio model/Inflight.vio proofs/InflightProofs.vio
+properties/C09.vos properties/C09.vok properties/C09.required_vos: properties/C09.v model/Bytes.vos model/Inflight.vos proofs/InflightProofs.vos
